@@ -247,20 +247,23 @@ def build_model(pid):
 
 
 # ----------------------------------------------------------------------------- running
-def run_model(runner, lines, shards=None):
-    """Feed text lines to the OCaml runner (sharded), return result lines in order."""
+def run_model(runner, lines, shards=None, header=None):
+    """Feed text lines to the OCaml runner (sharded), return result lines in order.
+    `header`: optional list of lines sent first to every shard (their answers are dropped)."""
     if not lines:
         return []
     shards = shards or min(NPROC, max(1, len(lines) // 500))
     chunks = [lines[i::shards] for i in range(shards)]
     outs = [None] * shards
+    header = list(header or [])
 
     def work(k):
-        p = subprocess.run([runner], input="\n".join(chunks[k]) + "\n", stdout=subprocess.PIPE,
+        p = subprocess.run([runner], input="\n".join(header + chunks[k]) + "\n", stdout=subprocess.PIPE,
                            stderr=subprocess.PIPE, text=True)
         o = p.stdout.split("\n")
         if o and o[-1] == "":
             o.pop()
+        o = o[len(header):]
         if len(o) != len(chunks[k]):
             o = o + [f"runner-died rc={p.returncode} {p.stderr[-200:]}"] * (len(chunks[k]) - len(o))
         outs[k] = o
